@@ -426,6 +426,10 @@ class TopoModel(Model):
                 ev.append(('sub_add_link', 'l3', tuple((self.t.get_owner_node(i).name, i.name) for i in fp[:3]), 'L2Path'))
         for l in sorted(links):
             ev.append(('sub_remove_link', l))
+        if 'sw' in names and 'c07' in self.oracles and 'sw-ns2' not in nodes['sw'].network_services:
+            # a second service on the switch whose port carries the SAME name as a port of the first service (names are
+            # unique per service, so this is legal): the node then owns two interfaces of one name
+            ev.append(('sub_add_twin_service', 'sw'))
         if 'sw' in names:
             sns = list(nodes['sw'].network_services.values())
             if sns and sns[0].interface_list:
@@ -578,6 +582,10 @@ class TopoModel(Model):
             for i in (1, 2, 3):
                 sf.add_interface(name=f'{ev[1]}-p{i}', node_id=f'id-{ev[1]}-p{i}', itype=InterfaceType.TrunkPort,
                                  labels=Labels(local_name=f'p{i}'), capacities=Capacities(bw=100))
+        elif k == 'sub_add_twin_service':
+            sf = self.node(ev[1]).add_network_service(name=ev[1] + '-ns2', node_id='id-' + ev[1] + '-ns2', nstype=ServiceType.MPLS)
+            sf.add_interface(name=f'{ev[1]}-p1', node_id=f'id-{ev[1]}-ns2-p1', itype=InterfaceType.TrunkPort,
+                             labels=Labels(local_name='q1'), capacities=Capacities(bw=10))
         elif k == 'sub_add_nic':
             self.node(ev[1]).add_component(name=ev[2], node_id=f'id-{ev[1]}-{ev[2]}', model_type=ComponentModelType.SmartNIC_ConnectX_6,
                                            network_service_node_id=f'id-{ev[1]}-{ev[2]}-sf',
